@@ -7,6 +7,7 @@ package pass1
 
 import (
 	"github.com/HobbyOSs/gosk/internal/ast"
+	ocode_client "github.com/HobbyOSs/gosk/internal/ocode_client"
 	"github.com/HobbyOSs/gosk/pkg/cpu"
 )
 
@@ -119,3 +120,25 @@ func specPow2D(n int32) bool {
 //@ requires env != nil && env.Client != nil
 //@ loop 0 invariant loc == int32(4*len(ocodes))
 //@ assigns Pass1.LOC, ocodeClient.Ocodes
+
+// specModesOK: the two copies of the bit mode (pass 1's and the code generation
+// context's) are valid modes.
+func specModesOK(env *Pass1) bool {
+	ctx := ocode_client.SpecCtx(env.Client)
+	return (env.BitMode == cpu.MODE_16BIT || env.BitMode == cpu.MODE_32BIT) &&
+		ctx != nil && (ctx.BitMode == cpu.MODE_16BIT || ctx.BitMode == cpu.MODE_32BIT)
+}
+
+// TraverseAST never writes the parse tree: everything it (and every handler it can
+// dispatch to) assigns is pass-1 state, the ocode list, the code generation context's
+// mode, and objects it allocates itself. The frame is checked against the inferred
+// write sets of all handlers registered in opcodeEvalFns.
+//@ func TraverseAST
+//@ props C10 C14 C17 C05
+//@ option trusted
+//@ requires env != nil && env.Client != nil && env.SymTable != nil && specModesOK(env)
+//@ loop 0 invariant specModesOK(env)
+//@ loop 1 invariant specModesOK(env)
+//@ loop 2 invariant specModesOK(env)
+//@ ensures[mode] specModesOK(env)
+//@ assigns Pass1.LOC, Pass1.BitMode, Pass1.OutputFormat, Pass1.SourceFileName, Pass1.CurrentSection, Pass1.MacroMap, Pass1.NextImmJumpID, Pass1.DollarPosition, Pass1.GlobalSymbolList, Pass1.ExternSymbolList, ocodeClient.Ocodes, CodeGenContext.BitMode, map[string]int32, map[string]ast.Exp, []string
